@@ -551,8 +551,80 @@ def refused_check(svg):
     return failsafe.Refused(svg, sc)
 
 
+
+class AngleLattice(SubCheck):
+    """every multiple of 15 degrees over two turns either way (every quadrant and every quadrant boundary, in both
+    directions and beyond a full turn), written in each of the four angle units, through rotate, rotate about a centre
+    and the skews (the odd quarter turns excepted there: tan has a pole), from text and through the Matrix methods"""
+    name = "angle-lattice"
+    FORMS = ["rotate", "rotate-c", "skewx", "skewy", "api.rotate", "api.post_rotate-c", "api.pre_rotate"]
+    UNITS = ["", "deg", "grad", "rad", "turn"]
+
+    def __init__(self, svg, tier):
+        self.svg = svg
+        step = 15 if tier != "thorough" else 5
+        self.p = Product(list(range(-720, 721, step)), self.FORMS, self.UNITS)
+
+    def size(self):
+        return len(self.p)
+
+    def case(self, i):
+        deg, form, unit = self.p[i]
+        num = {"": deg, "deg": deg, "grad": deg / 0.9, "rad": math.radians(deg), "turn": deg / 360.0}[unit]
+        return dict(deg=deg, form=form, unit=unit, text="%r%s" % (float(num), unit))
+
+    def run(self, case):
+        out = Outcome()
+        deg, form, text = case["deg"], case["form"], case["text"]
+        rad = math.radians(deg)
+        svg = self.svg
+        if form.startswith("skew") and deg % 180 == 90:
+            return out
+        if form.startswith("api") and case["unit"] != "rad":
+            return out
+        base = (1.5, 0.5, -0.25, 2.0, 3.0, -4.0)
+        if form == "rotate":
+            exp, make = af.rotate(rad), lambda: svg.Matrix("rotate(%s)" % text)
+        elif form == "rotate-c":
+            exp, make = af.rotate(rad, 4.0, -3.0), lambda: svg.Matrix("rotate(%s, 4, -3)" % text)
+        elif form == "skewx":
+            exp, make = af.skew(rad, 0.0), lambda: svg.Matrix("skewX(%s)" % text)
+        elif form == "skewy":
+            exp, make = af.skew(0.0, rad), lambda: svg.Matrix("skewY(%s)" % text)
+        elif form == "api.rotate":
+            exp, make = af.rotate(rad), lambda: svg.Matrix.rotate(rad)
+        elif form == "api.post_rotate-c":
+            exp = af.mul(af.rotate(rad, 4.0, -3.0), base)
+
+            def make():
+                m = svg.Matrix(*base)
+                m.post_rotate(rad, 4.0, -3.0)
+                return m
+        else:
+            exp = af.mul(base, af.rotate(rad))
+
+            def make():
+                m = svg.Matrix(*base)
+                m.pre_rotate(rad)
+                return m
+        tol = 1e-9 * max(1.0, af.norm(exp))
+        try:
+            got = mat_of(out.keep(make()))
+        except Exception as e:  # noqa
+            out.fail("%s of %s raised %s" % (form, text, type(e).__name__), list(exp), repr(e), kind="exception", form=form)
+            return out
+        out.outcome = tuple(round(x, 9) for x in got)
+        out.nontrivial.append((form, deg % 360 if not form.startswith("skew") else deg % 180))
+        if not mclose(got, exp, tol):
+            out.fail("%s by %s (%d degrees)" % (form, text, deg), list(exp), list(got), kind="angle-lattice", form=form, deg=deg)
+        return out
+
+    def unit_test(self, case):
+        return None
+
+
 def build(tier, seed, svg):
-    return [Strings(svg, tier), Units(svg, tier), Singles(svg, tier), Pairs(svg, tier), PrePost(svg, tier), refused_check(svg)]
+    return [Strings(svg, tier), Units(svg, tier), Singles(svg, tier), Pairs(svg, tier), PrePost(svg, tier), refused_check(svg), AngleLattice(svg, tier)]
 
 
 def m_units_composed(d):
